@@ -351,3 +351,13 @@ Theorem reject_sign_plus : forall ts1 ts2 o, is_binop o = true ->
 Proof.
   intros ts1 ts2 o H. apply reject_bad_pair. destruct o; simpl in H; try discriminate; reflexivity.
 Qed.
+
+(* a second sign on an exponent *)
+Theorem reject_double_sign_exponent_num : forall x s ts,
+  parse_tokens (TNum x s :: TCaret :: TMinus :: TMinus :: ts) = None.
+Proof. intros. reflexivity. Qed.
+
+Theorem reject_double_sign_exponent_name : forall n ts,
+  parse_tokens (TName n :: TCaret :: TMinus :: TMinus :: ts) = None.
+Proof. intros. reflexivity. Qed.
+
